@@ -28,7 +28,7 @@ Step == \/ (Ev("NewState") /\ NewState)
         \/ (Ev("Begin") /\ Rec[l].p \in Programs /\ Begin(Rec[l].p))
         \/ (Ev("Load") /\ Rec[l].f \in Files /\ Load(Rec[l].f))
         \/ (Ev("Hit") /\ Rec[l].f \in Files /\ Hit(Rec[l].f))
-        \/ (Ev("End") /\ Rec[l].depth = 0 /\ Rec[l].asserting = 0 /\ Rec[l].out = OutcomeOf(cur)
+        \/ (Ev("End") /\ phase = "running" /\ Rec[l].depth = 0 /\ Rec[l].asserting = 0 /\ Rec[l].out = OutcomeOf(cur)
                       /\ IF Rec[l].out = "val" THEN End ELSE EndAfterFail)
         \/ (Ev("Leave") /\ Rec[l].entered = FALSE /\ Leave)
         \/ (Ev("DropState") /\ DropState)
